@@ -447,7 +447,7 @@ Proof.
     pose proof (render_correct tw measure term_caps s2 r C2 S2 Y2 Hok) as H.
     destruct (do_render s2) as [s' o]. cbv zeta in H. intros Htok.
     destruct H as [S' [Y' [R' [N' [C' [SN [CR SY]]]]]]].
-    destruct (emu_simulates_refterm_list tw e w h o t r HW HM HR Htok) as [t' [E' [W' [M' Rl']]]].
+    destruct (emu_simulates_refterm_list tw e w h o t r HW HM HR Htok) as [t' [E' [W' [M' [Rl' _]]]]].
     exists t'. split; [exact E'|].
     assert (Hdims : tm_rows (interp tw r o) = tm_rows r /\ tm_cols (interp tw r o) = tm_cols r).
     { destruct S' as [[D1 _] _]. destruct S2 as [[D1' _] _]. rewrite N' in D1.
